@@ -283,12 +283,49 @@ Proof.
     + destruct (Qlt_bool 0 (qdet g1 g2 g * qdet g1 g2 g3)) eqn:E; [eapply IH3; eauto|]. apply Hqf in E. fold e3 in E. lra.
 Qed.
 
+(** a generator of a hull lies in the hull (cheap vertex witnesses for polytopes) *)
+Lemma comb_zeros (ps : list V3R) : comb (map (fun _ => 0%R) ps) ps = vzero.
+Proof.
+  induction ps as [|p ps IH]; simpl; [reflexivity|]. rewrite IH.
+  destruct p as [a b c]. vunfold. cbn [vx vy vz]. f_equal; ring.
+Qed.
+Lemma sum_zeros (ps : list V3R) : Convex.sum (map (fun _ => 0%R) ps) = 0%R.
+Proof. induction ps as [|p ps IH]; simpl; [reflexivity|]. rewrite IH. ring. Qed.
+Lemma conv_hull_in (ps : list V3R) (p : V3R) : In p ps -> conv_hull ps p.
+Proof.
+  induction ps as [|q ps IH]; intros H; [destruct H|].
+  destruct H as [->|H].
+  - exists (1%R :: map (fun _ => 0%R) ps). simpl. rewrite map_length. split; [reflexivity|]. split; [|split].
+    + constructor; [lra|]. apply Forall_forall. intros x Hx. apply in_map_iff in Hx as (y & <- & _). lra.
+    + rewrite sum_zeros. ring.
+    + rewrite comb_zeros. destruct p as [a b c]. vunfold. cbn [vx vy vz]. f_equal; ring.
+  - destruct (IH H) as (ws & Hl & Hw & Hs & Hc).
+    exists (0%R :: ws). simpl. split; [congruence|]. split; [|split].
+    + constructor; [lra|exact Hw].
+    + rewrite Hs. ring.
+    + rewrite <- Hc. destruct q as [a b c], p as [x y z]. vunfold. cbn [vx vy vz]. f_equal; ring.
+Qed.
+
+(** point witnesses: a general membership witness, or the index of a hull vertex *)
+Inductive pwit := PW (w : wit) | PV (i : nat).
+Definition ppoint_of (s : sh) (w : pwit) : option VQ :=
+  match w with
+  | PW w => point_of s w
+  | PV i => match s with HullPts ps => nth_error ps i | _ => None end
+  end.
+Lemma ppoint_of_sound s w q : ppoint_of s w = Some q -> sem s (v2r q).
+Proof.
+  destruct w as [w|i]; simpl; [apply point_of_sound|].
+  destruct s; try discriminate. intros H. simpl. apply conv_hull_in.
+  apply in_map. eapply nth_error_In; eauto.
+Qed.
+
 (** certified points of A - B *)
-Fixpoint diff_pts (A B : sh) (ws : list (wit * wit)) : option (list VQ) :=
+Fixpoint diff_pts (A B : sh) (ws : list (pwit * pwit)) : option (list VQ) :=
   match ws with
   | [] => Some []
   | (wa, wb) :: r =>
-    match point_of A wa, point_of B wb, diff_pts A B r with
+    match ppoint_of A wa, ppoint_of B wb, diff_pts A B r with
     | Some a, Some b, Some l => Some (vred (qsub a b) :: l)
     | _, _, _ => None
     end
@@ -299,11 +336,11 @@ Lemma diff_pts_sound A B : forall ws l, diff_pts A B ws = Some l ->
 Proof.
   induction ws as [|(wa, wb) r IH]; intros l H p Hp; simpl in H.
   - inversion H; subst. destruct Hp.
-  - destruct (point_of A wa) as [a|] eqn:Ea; [|discriminate].
-    destruct (point_of B wb) as [b|] eqn:Eb; [|discriminate].
+  - destruct (ppoint_of A wa) as [a|] eqn:Ea; [|discriminate].
+    destruct (ppoint_of B wb) as [b|] eqn:Eb; [|discriminate].
     destruct (diff_pts A B r) as [l'|] eqn:El; [|discriminate].
     inversion H; subst. destruct Hp as [<-|Hp].
-    + exists (v2r a), (v2r b). repeat split; eauto using point_of_sound. rewrite vred_r. apply qsub_r.
+    + exists (v2r a), (v2r b). repeat split; eauto using ppoint_of_sound. rewrite vred_r. apply qsub_r.
     + eapply IH; eauto.
 Qed.
 
@@ -322,7 +359,7 @@ Fixpoint octants_ok (pts : list VQ) (rho : Q) (ss : list (Q * Q * Q)) (ts : list
   | _, _ => false
   end.
 
-Definition depth_ge_cert (A B : sh) (ws : list (wit * wit)) (trees : list ctree) (rho : Q) : bool :=
+Definition depth_ge_cert (A B : sh) (ws : list (pwit * pwit)) (trees : list ctree) (rho : Q) : bool :=
   Qle_bool 0 rho &&
   match diff_pts A B ws with
   | Some pts => octants_ok pts rho octant_signs trees
@@ -436,7 +473,7 @@ Proof.
 Qed.
 
 (** the full statement of C07 for one result *)
-Definition mtv_cert (A B : sh) (mtv n : VQ) (wa wb : wit) (ws : list (wit * wit)) (trees : list ctree)
+Definition mtv_cert (A B : sh) (mtv n : VQ) (wa wb : wit) (ws : list (pwit * pwit)) (trees : list ctree)
            (rho tau : Q) : bool :=
   touch_cert A B mtv n wa wb tau && depth_ge_cert A B ws trees rho && len_le mtv (rho + tau).
 
